@@ -162,7 +162,7 @@ func init() {
 		},
 		MustFire: []string{"buffer_full", "shrink_discarded", "refill_after_shrink", "match_len>=16", "match_overlapping", "no_trailing_literals_cut", "reset_with_data", "wrap_multiple_fills"},
 		Rule:     "seeded traces over all seven parsers (direct and Wrap mode), config/geometry/input-family swarm; non-trivial = at least one sequence emitted and at least one of buffer_full / shrink_discarded / refill_after_shrink / wrap_multiple_fills; distinct = distinct event-log digests",
-		Quick:    24000, Thorough: 1500000, Real: realParser, Stub: stubParser})
+		Quick:    120000, Thorough: 3600000, Real: realParser, Stub: stubParser})
 
 	// ---------------------------------------------------------------- C02
 	register(&Prop{ID: "C02",
@@ -191,7 +191,7 @@ func init() {
 		NonTriv:  func(res *Result) bool { return pr(res, "seq_beyond_window") },
 		MustFire: []string{"seq_beyond_window", "parse_nil", "shrink_discarded"},
 		Rule:     "as C01 plus a stratum with WindowSize < BufferSize / = 1 and Parse(nil) in the history; non-trivial = at least one sequence at an absolute stream position beyond WindowSize",
-		Quick:    24000, Thorough: 1500000, Real: realParser, Stub: stubParser})
+		Quick:    120000, Thorough: 3600000, Real: realParser, Stub: stubParser})
 
 	// ---------------------------------------------------------------- C03
 	register(&Prop{ID: "C03",
@@ -213,7 +213,7 @@ func init() {
 		},
 		MustFire: []string{"empty_buffer_parse", "ntl_with_seq", "ntl_without_seq", "block_size_1", "no_trailing_literals_cut", "shrink_discarded"},
 		Rule:     "seeded traces, both flag values on every call, block sizes 1..>buffer; non-trivial = at least two non-empty Parse results including a NoTrailingLiterals block that cut trailing literals",
-		Quick:    24000, Thorough: 1500000, Real: realParser, Stub: stubParser})
+		Quick:    120000, Thorough: 3600000, Real: realParser, Stub: stubParser})
 
 	// ---------------------------------------------------------------- C14
 	register(&Prop{ID: "C14",
@@ -236,7 +236,7 @@ func init() {
 		NonTriv:  func(res *Result) bool { return pr(res, "parse_nil") && pr(res, "block_with_seq") },
 		MustFire: []string{"parse_nil", "nil_drains_to_empty"},
 		Rule:     "Parse(nil) mixed with Parse(&blk), Write, Shrink on all seven parsers; non-trivial = at least one Parse(nil) that consumed data and a later block with a sequence",
-		Quick:    24000, Thorough: 1200000, Real: realParser, Stub: stubParser})
+		Quick:    120000, Thorough: 3600000, Real: realParser, Stub: stubParser})
 
 	// ---------------------------------------------------------------- C15
 	register(&Prop{ID: "C15",
@@ -266,7 +266,7 @@ func init() {
 		NonTriv:  func(res *Result) bool { return pr(res, "shrink_discarded") && pr(res, "probe_end", "probe_off-1", "probe_end+1") },
 		MustFire: []string{"probe_off-1", "probe_off", "probe_end-1", "probe_end", "probe_end+1", "reset_with_aliased_cap", "readfrom_exact_fit", "readfrom_reader_error", "reset_oversize", "buffer_full", "shrink_discarded"},
 		Rule:     "operation mix dominated by Write/ReadFrom/Shrink/Reset(data)/ReadAt/PeekAt/ByteAt on every parser and on a bare ParserBuffer, reader faults, aliasing Reset; non-trivial = at least one Shrink>0 and a probe at a boundary offset",
-		Quick:    30000, Thorough: 2000000, Real: realParser, Stub: stubParser})
+		Quick:    200000, Thorough: 6000000, Real: realParser, Stub: stubParser})
 
 	// ---------------------------------------------------------------- C19
 	register(&Prop{ID: "C19",
@@ -305,7 +305,7 @@ func init() {
 		NonTriv:  func(res *Result) bool { return pr(res, "run_block") || pr(res, "match_len>=16") },
 		MustFire: []string{"len_mod_8=0", "len_mod_8=1", "len_mod_8=2", "len_mod_8=3", "len_mod_8=4", "len_mod_8=5", "len_mod_8=6", "len_mod_8=7", "backward_checked", "run_block", "run_block_zero_byte", "run_block_ws_1"},
 		Rule:     "inputs rich in long matches and runs (all byte values incl. 0x00), all parsers/configs/histories; non-trivial = a block of >= 32 equal bytes was parsed or a match of length >= 16 was emitted",
-		Quick:    24000, Thorough: 1500000, Real: realParser, Stub: stubParser})
+		Quick:    100000, Thorough: 3000000, Real: realParser, Stub: stubParser})
 
 	// ---------------------------------------------------------------- C12
 	register(&Prop{ID: "C12",
@@ -330,7 +330,7 @@ func init() {
 		NonTriv:  func(res *Result) bool { return pr(res, "gsap_match_checked") && res.Probes["block_with_seq"] > 0 },
 		MustFire: []string{"gsap_match_checked", "refill_after_shrink", "reset", "shrink_discarded", "ntl_with_seq"},
 		Rule:     "GSAP only, histories with second and later fills, Shrink, Reset, both flags, no Parse(nil); oracle = brute-force longest previous match; non-trivial = at least one emitted match was compared with the brute force",
-		Quick:    6000, Thorough: 300000, Real: realParser, Stub: stubParser})
+		Quick:    50000, Thorough: 1500000, Real: realParser, Stub: stubParser})
 
 	// ---------------------------------------------------------------- C11
 	register(&Prop{ID: "C11",
@@ -354,7 +354,7 @@ func init() {
 		NonTriv:  func(res *Result) bool { return pr(res, "osap_multi_seq") },
 		MustFire: []string{"osap_block_checked", "osap_multi_seq", "shrink_discarded", "refill_after_shrink"},
 		Rule:     "OSAP only, tiny/small geometry, histories with several fills, Shrink, Reset, NoTrailingLiterals blocks in between; oracle = independent O(n*window*len) dynamic program; non-trivial = a checked block with >= 2 sequences",
-		Quick:    5000, Thorough: 250000, Real: realParser, Stub: stubParser})
+		Quick:    60000, Thorough: 1800000, Real: realParser, Stub: stubParser})
 
 	// ---------------------------------------------------------------- C16 (clause 2; clause 1 is the config world)
 	register(&Prop{ID: "C16",
@@ -413,7 +413,7 @@ func init() {
 		NonTriv:  func(res *Result) bool { return res.Probes["cfg_checked"] > 0 || (res.OpsDone > 10 && pr(res, "buffer_full", "wrap_multiple_fills")) },
 		MustFire: []string{"cfg_checked", "cfg_rejected", "cfg_accepted", "wrap_eof", "wrap_reader_error_surfaced", "buffer_full", "reset_oversize"},
 		Rule:     "clause 1: arbitrary field values incl. negative/zero/boundary, NewParser error <=> Verify(defaults(cfg)) error, no panic; clause 2: boundary accepted configs driven through >= 3 fills in direct and Wrap mode with reader faults; non-trivial = config clause evaluated, or > 10 ops with a full buffer",
-		Quick:    24000, Thorough: 1500000, Real: realParser, Stub: stubParser})
+		Quick:    120000, Thorough: 3600000, Real: realParser, Stub: stubParser})
 
 	// ---------------------------------------------------------------- C08
 	register(&Prop{ID: "C08",
@@ -445,7 +445,7 @@ func init() {
 		NonTriv:  func(res *Result) bool { return pr(res, "wrap_multiple_fills") && (pr(res, "c08_twin_compared") || len(res.Fired) > 0) },
 		MustFire: []string{"wrap_eof", "wrap_eof_again", "wrap_reader_error_surfaced", "wrap_multiple_fills", "c08_twin_compared"},
 		Rule:     "Wrap mode on all parsers; even runs: fault-free chunk plans compared block-for-block with a one-shot reader (metamorphic); odd runs: reader errors with/without data, transient/sticky/dead, first fault stratified over the stream; non-trivial = input longer than BufferSize and a non-trivial chunk or fault plan",
-		Quick:    20000, Thorough: 1200000, Real: realParser, Stub: stubParser})
+		Quick:    60000, Thorough: 1800000, Real: realParser, Stub: stubParser})
 
 	// ---------------------------------------------------------------- C13
 	register(&Prop{ID: "C13",
@@ -454,7 +454,7 @@ func init() {
 		NonTriv:  func(res *Result) bool { return res.NonTrivial },
 		MustFire: []string{"switch_inside_call", "reset_with_data", "c13_reset_compared", "c13_determinism_compared", "task_HP", "task_BHP", "task_DHP", "task_BDHP", "task_BUP", "task_GSAP", "task_OSAP"},
 		Rule:     "oracle 1: arbitrary prefix history, Reset, suffix trace vs fresh parser with the same suffix; oracle 2: same trace twice => identical observations and tick counts; oracle 3 (multi world): K=2..4 instances as goroutines under the seeded scheduler, interleaved observations == solo observations; non-trivial = prefix with a fill and a shrink (oracle 1) or >= 2 switches inside library calls (oracle 3)",
-		Quick:    9000, Thorough: 500000, Real: append(realParser, realDecoder...), Stub: append(stubParser, "goroutine scheduler (baton passing at generated yield points)")})
+		Quick:    24000, Thorough: 720000, Real: append(realParser, realDecoder...), Stub: append(stubParser, "goroutine scheduler (baton passing at generated yield points)")})
 
 	// ---------------------------------------------------------------- decoder world
 	register(&Prop{ID: "C04",
@@ -465,7 +465,7 @@ func init() {
 		NonTriv:  func(res *Result) bool { return pr(res, "decoder_shrink_inside_call") || pr(res, "partial_read_cursor") },
 		MustFire: []string{"overlap_copy_doubling", "window_probe_at_limit", "partial_read_cursor", "decoder_shrink_inside_call", "byteatend_at_limit", "reset"},
 		Rule:     "DecoderBuffer and Decoder, geometries 1 <= WS < BS incl. BS = WS+1 and BS < 2*WS, valid operands sized <= min(WS, BS-WS), fault-free writer; non-trivial = an in-call shrink or a read cursor strictly inside the data",
-		Quick:    40000, Thorough: 2500000, Real: realDecoder, Stub: stubDecoder})
+		Quick:    400000, Thorough: 12000000, Real: realDecoder, Stub: stubDecoder})
 
 	register(&Prop{ID: "C05",
 		Gen: func(r *RNG, tier string, run int) *Trace {
@@ -475,7 +475,7 @@ func init() {
 		NonTriv:  func(res *Result) bool { return pr(res, "malformed_in_nonempty_buffer", "malformed_match_offbig", "malformed_match_off0") },
 		MustFire: []string{"malformed_off0", "malformed_offbig", "malformed_litlen", "malformed_rawoff", "malformed_rawlit", "malformed_after_valid_prefix", "malformed_rejected", "malformed_match_off0", "malformed_match_offbig"},
 		Rule:     "corruption faults (Offset/LitLen over the full uint32 range, offset 0, offset beyond the window limit) in about 1 of 3 blocks/matches, in buffer states reached by arbitrary histories; non-trivial = a malformed item reached the decoder in a non-empty buffer",
-		Quick:    40000, Thorough: 2500000, Real: realDecoder, Stub: stubDecoder})
+		Quick:    400000, Thorough: 12000000, Real: realDecoder, Stub: stubDecoder})
 
 	register(&Prop{ID: "C06",
 		Gen: func(r *RNG, tier string, run int) *Trace {
@@ -485,7 +485,7 @@ func init() {
 		NonTriv:  func(res *Result) bool { return pr(res, "arg_gt_bs_minus_ws", "seq_gt_bs_minus_ws") },
 		MustFire: []string{"arg_gt_bs_minus_ws", "arg_gt_bs", "seq_gt_bs_minus_ws"},
 		Rule:     "argument sizes stratified relative to BS-WS (smaller, equal, larger, larger than BS, raw 32-bit lengths), all geometries, valid and corrupted arguments, writers with and without faults; verdict = per-call tick budget and writer-call bound; non-trivial = a call with an argument larger than BS-WS",
-		Quick:    30000, Thorough: 2000000, Real: realDecoder, Stub: stubDecoder})
+		Quick:    400000, Thorough: 12000000, Real: realDecoder, Stub: stubDecoder})
 
 	register(&Prop{ID: "C17",
 		Gen: func(r *RNG, tier string, run int) *Trace {
@@ -495,7 +495,7 @@ func init() {
 		NonTriv:  func(res *Result) bool { return pr(res, "decoder_shrink_inside_call") },
 		MustFire: []string{"decoder_shrink_inside_call", "shrink_with_read_bytes", "early_error_with_progress"},
 		Rule:     "profile biased to a full buffer with already-read bytes followed by calls that discard and append, and calls stopped early by an error; non-trivial = a call that shrank the buffer and appended",
-		Quick:    40000, Thorough: 2500000, Real: realDecoder, Stub: stubDecoder})
+		Quick:    400000, Thorough: 12000000, Real: realDecoder, Stub: stubDecoder})
 
 	register(&Prop{ID: "C18",
 		Gen: func(r *RNG, tier string, run int) *Trace {
@@ -509,7 +509,7 @@ func init() {
 		NonTriv:  func(res *Result) bool { return pr(res, "writer_fault_during_WriteBlock", "writer_fault_during_Write", "writer_fault_during_WriteByte", "writer_fault_during_flush") },
 		MustFire: []string{"writer_fault_during_WriteBlock", "writer_fault_during_Write", "writer_fault_during_flush", "retry_writeblock", "retry_flush"},
 		Rule:     "Decoder with SimWriter fault plans: first fault stratified over the writer-call index, multiple faults, bursts, accept counts 0..len-1, small geometries, items sized <= min(WS, BS-WS); client follows the documented retry protocol; non-trivial = a writer fault was hit during a call",
-		Quick:    40000, Thorough: 2500000, Real: realDecoder, Stub: stubDecoder})
+		Quick:    400000, Thorough: 12000000, Real: realDecoder, Stub: stubDecoder})
 
 	register(&Prop{ID: "C07",
 		Gen:      genC07,
@@ -517,5 +517,5 @@ func init() {
 		NonTriv:  func(res *Result) bool { return pr(res, "block_with_seq", "overlap_copy") && pr(res, "decoder_drained", "decoder_shrink_inside_call") },
 		MustFire: []string{"bl_gt_ws", "default_buffer", "seq_gt_ws", "block_with_seq", "decoder_drained"},
 		Rule:     "pipe world: every parser type, any BlockSize incl. > WindowSize, long runs, paired with Decoder{WindowSize: W, BufferSize: 0 or random > W}; plus synthetic well-formed block streams fed to a Decoder; non-trivial = a block with a sequence and a decoder drain",
-		Quick:    16000, Thorough: 1000000, Real: append(realParser, realDecoder...), Stub: append(stubParser, stubDecoder...)})
+		Quick:    16000, Thorough: 480000, Real: append(realParser, realDecoder...), Stub: append(stubParser, stubDecoder...)})
 }
